@@ -685,6 +685,19 @@ def _post_same_start(args, kwargs, result, pre):
         except Exception as e:
             ctx.exception('same_start.section-average==master', wit(), e)
             return
+    # the same section given as SAMPLE INDICES: when both ends of the window are sample times (t == i*dt and t/dt == i exactly)
+    # the window holds the samples i0..i1 under every rounding convention; read back through the public index form
+    avx = None
+    nmin = min(len(v) for v in vals)
+    i0, i1 = O.whole_sample_time(start, dt, nmin), O.whole_sample_time(end, dt, nmin)
+    if i0 is not None and i1 is not None and i0 <= i1 and all(len(a_) == len(v_) for a_, v_ in zip(aft, vals)):
+        try:
+            avx = [float(s.get_section_average(start=i0, end=i1 + 1, index=True)) for s in sigs]      # monitored as well
+        except Exception as e:
+            ctx.exception('same_start.section-average(index-form)==master', wit(index_window=[i0, i1 + 1]), e)
+            avx = None
+    else:
+        ctx.observe('same_start.window-not-on-whole-samples')
     # LOCAL scale: the largest magnitudes inside (a one-sample superset of) the section window, plus the applied shift
     wmax = []
     for v in vals:
@@ -706,6 +719,60 @@ def _post_same_start(args, kwargs, result, pre):
                   lambda: wit(signal=i, shift=shift, sample=jw, deviation=dev, allowed=allowed),
                   'same_start changed signal %d by something other than a constant (at sample %r after-before deviates from '
                   'the shift %r by %.3g > %.3g; length %d -> %d)' % (i, jw, shift, dev, allowed, len(vals[i]), len(aft[i])))
+        if avx is not None:
+            okx = math.isfinite(avx[i]) and abs(avx[i] - avx[m]) <= rt_avg * scale
+            ctx.check(okx, 'same_start.section-average(index-form)==master',
+                      lambda: wit(signal=i, average=avx[i], master_average=avx[m], allowed=rt_avg * scale, index_window=[i0, i1 + 1]),
+                      'same_start(start=%r, end=%r) = samples %d..%d, %d signals, master %d: section average of signal %d read '
+                      'back with (start=%d, end=%d, index=True) is %r, the master\'s is %r (|diff| %.3g > %.3g)'
+                      % (start, end, i0, i1, nsig, m, i, i0, i1 + 1, avx[i], avx[m], abs(avx[i] - avx[m]), rt_avg * scale))
+
+
+def _pre_section(args, kwargs):
+    try:
+        return np.array(_arg(args, kwargs, 0, 'series').values, copy=True)
+    except Exception:
+        return None
+
+
+def _is_index(v):
+    return isinstance(v, (int, np.integer)) and not isinstance(v, (bool, np.bool_))
+
+
+def _post_section_average(args, kwargs, result, pre):
+    """get_section_average with the section given as sample indices (index=True): the mean of the samples start..end-1."""
+    ctx = CTX
+    index = _arg(args, kwargs, 3, 'index', False)
+    if index is False:
+        return           # time form: read back by the same_start monitor (its index convention is not judged)
+    series = _arg(args, kwargs, 0, 'series')
+    start = _arg(args, kwargs, 1, 'start', 0)
+    end = _arg(args, kwargs, 2, 'end', -1)
+    if not (index is True or (isinstance(index, np.bool_) and bool(index))) or pre is None or pre.ndim != 1 \
+            or pre.dtype.kind not in 'fiu' or not _is_index(start) or not _is_index(end) or not (0 <= start < end <= pre.size) \
+            or not np.all(np.isfinite(pre)):
+        ctx.observe('section-average.out-of-domain-call')
+        return
+    start, end = int(start), int(end)
+    ref, wmax = O.section_mean(pre.tolist(), start, end)
+    rt = RTOL_AVG_F32 if pre.dtype.itemsize < 8 and pre.dtype.kind == 'f' else RTOL_AVG
+
+    def wit(**kw):
+        if CURRENT is not None:
+            d = dict(CURRENT)
+            d['failing'] = dict(kw, call='get_section_average', start=start, end=end, index=True)
+            return d
+        return dict(kw, kind='section-average-call', values=pre, dt=getattr(series, 'dt', None), start=start, end=end)
+    try:
+        got = float(result)
+        okk = np.ndim(result) == 0 and math.isfinite(got) and abs(got - ref) <= rt * wmax
+    except Exception:
+        got, okk = result, False
+    ctx.check(okk, 'section-average(index=True)==mean(samples[start:end])', lambda: wit(got=got, expected=ref),
+              'get_section_average(start=%d, end=%d, index=True) on %d samples returned %r; the mean of the samples %d..%d is %r '
+              '(allowed %.3g)' % (start, end, pre.size, got, start, end - 1, ref, rt * wmax))
+    ctx.check(unchanged(series.values, pre), 'section-average.signal-unchanged', lambda: wit(),
+              'get_section_average(start=%d, end=%d, index=True) changed the values of its signal' % (start, end))
 
 
 def install(ctx):
@@ -722,6 +789,8 @@ def install(ctx):
     attach.wrap(mm, 'compute_rotated', _post_scan, pre=_pre_rot)
     attach.wrap_method(mm.Cluster, 'time_match', _post_time_match, pre=_pre_cluster)
     attach.wrap_method(mm.Cluster, 'same_start', _post_same_start, pre=_pre_cluster)
+    import eqsig.fns.average as _fa
+    attach.wrap(_fa, 'get_section_average', _post_section_average, pre=_pre_section)      # rebinds the alias used by Signal
     install._done = True
 
 
@@ -813,6 +882,8 @@ def extra_record(rng, n, cls=None):
 
 def draw_vector(rng, n, form, edge=None):
     """Exact float64 values that the form can represent, and a class label."""
+    if rng.random() < 0.035:       # a silent (all-zero) component is a valid record
+        return np.zeros(n), 'silent'
     if form in INT_FORMS:
         lo, hi = int_range(form)
         x = rng.integers(lo, hi + 1, size=n).astype(float)
@@ -887,6 +958,10 @@ def make_rotation_case(rng, k):
     r1 = float(np.round(rng.uniform(-360, 360), 3))
     r2 = float(rng.uniform(-3400, 3400))
     base_angles = [float(a) for a in SPECIAL_ANGLES] + [37.5, r1, r2]
+    # neighbourhoods of the quadrant angles, both ends of the judged range, denormal and tiny angles
+    q90 = 90.0 * float(rng.integers(-8, 9))
+    base_angles += [[q90 + 1e-9, q90 - 1e-9, q90 + 1e-13 * max(1.0, abs(q90)), float(np.nextafter(q90, 1e9)), float(np.nextafter(q90, -1e9))][k % 5],
+                    [3600.0, -3600.0, 3420.0 - 1e-9, 5e-324, 1e-300, -1e-17, 359.99999999999994, 1e-9][(k // 5) % 8]]
     if long_case:
         base_angles = [0.0, 90.0, r1]
     angles, aforms = [], []
@@ -941,6 +1016,28 @@ def make_rotation_case(rng, k):
                            'const': float(rng.normal()) * float(np.max(np.abs(ns)) or 1.0),
                            'scan': _make_scan(rng, OFFSET_KINDS[int(rng.integers(len(OFFSET_KINDS)))],
                                               sens[int(rng.integers(len(sens)))], int(rng.choice([1, 2, 3])), False, 'kw')}
+    if not long_case:
+        # round 3: copies of warm components (copy / deepcopy / pickle), refused calls (unequal lengths / time steps), a third
+        # call after other data of another shape, sections given as sample indices
+        if rng.random() < 0.35:
+            case['copies'] = {'kinds': [['copy', 'deepcopy', 'pickle'][int(i)] for i in rng.permutation(3)[:int(rng.integers(1, 4))]],
+                              'warm': [['pga', 'pgv', 'velocity', 'displacement', 'fa_spectrum', 's_a', 'none'][int(i)]
+                                       for i in rng.integers(0, 7, size=2)],
+                              'order': ['copy-first', 'original-first'][int(rng.integers(2))],
+                              'const': float(rng.normal()) * float(np.max(np.abs(ns)) or 1.0),
+                              'new': rng.normal(size=n) * float(np.max(np.abs(ns)) or 1.0),
+                              'theta': float(np.round(rng.uniform(-360, 360), 2))}
+        if rng.random() < 0.12:
+            case['mismatch'] = {'extra': int(rng.choice([1, 2, 7, -1])), 'dt_factor': float(rng.choice([1.0, 2.0, 1.0000001])),
+                                'theta': float(np.round(rng.uniform(-360, 360), 2))}
+        if rng.random() < 0.5:
+            n3 = n + int(rng.integers(1, 9))
+            case['third'] = {'ns': rng.normal(size=n3), 'we': rng.normal(size=n3)}
+        reads = []
+        for _ in range(2):
+            s0 = int(rng.integers(0, n))
+            reads.append([['ns', 'we', 'result'][int(rng.integers(3))], s0, int(rng.integers(s0 + 1, n + 1)) if rng.random() < 0.7 else n])
+        case['index_reads'] = reads
     if not long_case and rng.random() < 0.5:
         n2 = [n, n, max(1, n // 2), n + int(rng.integers(1, 9))][int(rng.integers(4))]
         hf = [VEC_FORMS[int(rng.integers(len(VEC_FORMS)))] for _ in range(2)]
@@ -1140,6 +1237,85 @@ def derived_objects(eqsig, ctx, case, d, ns_a, we_a):
               'add_constant on a deep copy of a component changed the original')
 
 
+def copied_components(eqsig, ctx, case, cp, ns_a, we_a):
+    """Copies (copy.copy / copy.deepcopy / pickle round trip) of a warm component are used as components; the copy and the
+    original are then changed in either order. Judged: the combination follows each object's OWN current values (monitor) and
+    whatever an object memoises equals a fresh computation from its own values."""
+    import copy
+    import pickle
+    if not cp or ns_a.npts != we_a.npts or ns_a.npts == 0:
+        return
+    for attr in cp['warm']:
+        if attr != 'none':
+            getattr(ns_a, attr)
+    n = ns_a.npts
+    for kind in cp['kinds']:
+        orig_before = np.array(ns_a.values, copy=True)
+        twin = pickle.loads(pickle.dumps(ns_a)) if kind == 'pickle' else (copy.deepcopy(ns_a) if kind == 'deepcopy' else copy.copy(ns_a))
+        ctx.check(type(twin) is type(ns_a) and twin.dt == ns_a.dt and twin.npts == n and unchanged(twin.values, orig_before),
+                  'rotation.copied-component==original', lambda: dict(case, failing={'relation': '%s of a warm component' % kind}),
+                  'a %s of a warm AccSignal differs from it in type, dt, npts or values' % kind)
+        eqsig.combine_at_angle(twin, we_a, cp['theta'])                   # monitored: judged from the copy's values
+        new = np.resize(np.asarray(cp['new'], dtype=float), n)
+
+        def change_copy():
+            if kind == 'copy':       # a shallow copy shares the buffer by definition: only rebinding operations
+                twin.reset_values(new.copy())
+            else:
+                twin.add_constant(cp['const'])
+                if twin.values.flags.writeable:
+                    twin.values[0] += 1.0           # in-place edit of the copy's own buffer
+                    twin.reset_values(twin.values)
+
+        def change_orig():
+            ns_a.add_constant(-cp['const'])
+        for f in ((change_copy, change_orig) if cp['order'] == 'copy-first' else (change_orig, change_copy)):
+            f()
+        separate = isinstance(twin.values, np.ndarray) and not np.shares_memory(twin.values, ns_a.values)
+        ctx.check(separate and unchanged(ns_a.values, orig_before - cp['const']), 'rotation.copy-leaves-original-alone',
+                  lambda: dict(case, failing={'relation': 'changing a %s leaves the original alone' % kind, 'order': cp['order']}),
+                  'after changing a %s of a component (%s) the original is not its own values minus the constant added to it'
+                  % (kind, cp['order']))
+        eqsig.combine_at_angle(twin, ns_a, cp['theta'])                   # both as components (monitored)
+        eqsig.combine_at_angle(ns_a, we_a, cp['theta'] + 90.0)
+        bad = []
+        with attach.paused():
+            for name, obj in (('copy', twin), ('original', ns_a)):
+                fresh = eqsig.AccSignal(np.array(obj.values, copy=True), obj.dt)      # same dtype as the object
+                for x, y in ((float(obj.pga), float(fresh.pga)), (float(obj.pgv), float(fresh.pgv)),
+                             (float(obj.velocity[-1]), float(fresh.velocity[-1])), (float(obj.npts), float(fresh.npts))):
+                    if not abs(x - y) <= 1e-9 * (abs(x) + abs(y)):
+                        bad.append((name, x, y))
+        ctx.check(not bad, 'rotation.copied-component-memo==fresh',
+                  lambda: dict(case, failing={'relation': 'memo of a %s and of its original == fresh computation' % kind, 'bad': bad}),
+                  'pga/pgv/final velocity of a %s of a warm component or of the original (changed in the order %s) differ from a '
+                  'fresh computation on their current values: %r (object, memo, fresh)' % (kind, cp['order'], bad[:3]))
+
+
+def refused_calls(eqsig, ctx, case, mm, ns_a, we_a):
+    """Companions the functions refuse (unequal lengths, unequal time steps in a scan): whether they raise or not, the
+    components stay as they were."""
+    if not mm or ns_a.npts + mm['extra'] < 1:
+        return
+    other = eqsig.AccSignal(np.resize(np.asarray(we_a.values, dtype=float), ns_a.npts + mm['extra']), ns_a.dt * mm['dt_factor'])
+    snaps = [np.array(ns_a.values, copy=True), np.array(other.values, copy=True)]
+    raised = 0
+    for call in (lambda: eqsig.combine_at_angle(ns_a, other, mm['theta']),
+                 lambda: eqsig.compute_rotated(ns_a, other, angle_off_ns=mm['theta'], parameter='pga', points=3),
+                 lambda: eqsig.compute_rotated(other, ns_a, func=_m_signed_max, points=2)):
+        try:
+            call()
+        except Exception:
+            raised += 1
+    ctx.observe('rotation.mismatched-companions.%s' % ('all-refused' if raised == 3 else 'some-served'))
+    okk = unchanged(ns_a.values, snaps[0]) and unchanged(other.values, snaps[1]) and ns_a.npts == len(snaps[0]) \
+        and other.npts == len(snaps[1]) and ns_a.dt == case['dt'] and other.dt == case['dt'] * mm['dt_factor']
+    ctx.check(okk, 'rotation.refused-call-leaves-components-unchanged',
+              lambda: dict(case, failing={'relation': 'components of unequal length / step unchanged', 'mismatch': mm}),
+              'combine_at_angle / compute_rotated on components of %d and %d samples (dt x %r) changed one of them'
+              % (len(snaps[0]), len(snaps[1]), mm['dt_factor']))
+
+
 def self_history(eqsig, ctx, case, h, ns_a, we_a):
     """History on the same objects: cache reads, reset_values, more calls, add_constant."""
     if not h:
@@ -1230,6 +1406,19 @@ def run_rotation_case(eqsig, ctx, case):
             derived_objects(eqsig, ctx, case, case.get('derived'), ns_a, we_a)
         except Exception as e:
             ctx.exception('rotation.derived-op(no-exception)', dict(case, failing={'where': 'derived objects'}), e)
+        # sections given as sample indices on the components and on a result (judged by the monitor)
+        for which, s0, e0 in case.get('index_reads') or []:
+            obj = {'ns': ns, 'we': we, 'result': first}.get(which)
+            if obj is not None and 0 <= s0 < e0 <= obj.npts:
+                try:
+                    obj.get_section_average(start=s0, end=e0, index=True)
+                except Exception as e:
+                    ctx.exception('section-average(index=True)==mean(samples[start:end])',
+                                  dict(case, failing={'call': 'get_section_average', 'on': which, 'start': s0, 'end': e0}), e)
+        try:
+            refused_calls(eqsig, ctx, case, case.get('mismatch'), ns_a, we_a)
+        except Exception as e:
+            ctx.exception('rotation.refused-call-leaves-components-unchanged', dict(case, failing={'where': 'refused calls'}), e)
         # history on the same objects: cache reads, reset, more calls, in-place style mutator
         h = case.get('history')
         try:
@@ -1254,6 +1443,29 @@ def run_rotation_case(eqsig, ctx, case):
             ctx.check(okk, 'rotation.first-result-intact-after-second-call',
                       lambda: dict(case, failing={'relation': 'first result intact after a second call on other data'}),
                       'the result of the first combine_at_angle / compute_rotated call changed after calls on another pair')
+        # f(A); f(B); f(A) with B of another shape: the third result is the first, bit for bit
+        th3 = case.get('third')
+        if th3 is not None and first is not None:
+            try:
+                ns3 = eqsig.AccSignal(np.asarray(th3['ns'], dtype=float), dt)
+                we3 = eqsig.AccSignal(np.asarray(th3['we'], dtype=float), dt)
+                eqsig.combine_at_angle(ns3, we3, angle_obj(angles[0], aforms[0]))
+                eqsig.compute_rotated(ns3, we3, angle_off_ns=case['scans'][0]['offset'] + 5.0, parameter='pga', points=4)
+                again = eqsig.combine_at_angle(ns, we, angle_obj(angles[0], aforms[0]))
+                okk = unchanged(again.values, first_copy)
+                if first_scan is not None and h is None and not case.get('copies'):      # components not changed in between
+                    r3 = _scan_call(eqsig, ns_a, we_a, case['scans'][0], case['scans'][0]['offset'])
+                    okk = okk and unchanged(np.asarray(r3[0]), first_scan[2]) and unchanged(np.asarray(r3[1]), first_scan[3])
+                ctx.check(okk, 'rotation.third-call==first-call',
+                          lambda: dict(case, failing={'relation': 'f(A); f(B); f(A): third == first'}),
+                          'combine_at_angle / compute_rotated repeated on the same components after calls on a pair of another '
+                          'length did not reproduce the first result bit for bit')
+            except Exception as e:
+                ctx.exception('rotation.third-call==first-call', dict(case, failing={'where': 'third call'}), e)
+        try:
+            copied_components(eqsig, ctx, case, case.get('copies'), ns_a, we_a)
+        except Exception as e:
+            ctx.exception('rotation.copied-component(no-exception)', dict(case, failing={'where': 'copies of components'}), e)
         # the caller's containers are untouched
         ctx.check(unchanged(ns_in, snaps[0]) and unchanged(we_in, snaps[1]), 'rotation.caller-arrays-unchanged',
                   lambda: dict(case, failing={'relation': 'caller arrays unchanged'}),
@@ -1323,6 +1535,22 @@ def container_unchanged(data, snap):
 def _window(rng, n, dt):
     """same_start keyword arguments: the default window (0, 1) when it fits, boundary windows, else random inside."""
     T = (n - 1) * dt
+    if rng.random() < 0.1:        # ends of the admissible range and numpy scalar forms of start / end
+        j = int(rng.integers(7))
+        if j == 0:
+            return {'start': T, 'end': T}                                 # the last sample alone
+        if j == 1:
+            return {'start': 0, 'end': T * (1.0 - 1e-12)}                 # just short of the whole record
+        if j == 2:
+            return {'start': 1e-300, 'end': float(rng.uniform(0, T)) if T > 0 else 0.0}
+        if j == 3:
+            return {'start': dt * 1e-9, 'end': T}
+        if j == 4:
+            i0 = int(rng.integers(0, n))
+            return {'start': np.float64(i0 * dt), 'end': np.float64(T)}
+        if j == 5 and T >= 1:
+            return {'start': np.int64(0), 'end': np.int64(rng.integers(1, int(T) + 1))}
+        return {'start': max(0.0, T - dt), 'end': T}                      # the last two samples
     r = rng.random()
     if T >= 1.0 and r < 0.3:
         return {} if rng.random() < 0.7 else {'base': 0}
@@ -1517,8 +1745,55 @@ def make_cluster_case(rng, k, extra=False):
         bcls = str(bcls) + '+spike'
     if not can_tm:
         ops = [o for o in ops if o[0] != 'time_match']
+    if mode in ('samestart', 'levels') and form not in CLUSTER_INT_FORMS and rng.random() < 0.07:
+        # a silent (all-zero) record as the master or as another signal
+        j = master if rng.random() < 0.5 else int(rng.integers(nsig))
+        values[j] = np.zeros(n)
+        bcls = str(bcls) + '+silent'
     if form == 'f32':
         values = [v.astype(np.float32).astype(float) for v in values]
+    # ---- round 3: the master is chosen through the public attribute after construction (and re-chosen during the history)
+    n_eff, equal_len = n, True
+    for o in ops:
+        if o[0] == 'sig.reset_values' and len(o[2]) != n:
+            n_eff, equal_len = min(n_eff, len(o[2])), False
+    mforms = ['int', 'int', 'np.int64', 'np.int32', 'np.intp']
+    ctor_master = master
+    if nsig >= 2 and rng.random() < 0.4:
+        ctor_master = int([i for i in range(nsig) if i != master][int(rng.integers(nsig - 1))])
+        ops.insert(0, ['set_master', master, mforms[int(rng.integers(len(mforms)))]])
+    if nsig >= 2 and not long_case and rng.random() < 0.3:
+        cur = master
+        for _ in range(int(rng.integers(1, 3))):
+            cur = int([i for i in range(nsig) if i != cur][int(rng.integers(nsig - 1))]) if rng.random() < 0.85 else master
+            ops.append(['set_master', cur, mforms[int(rng.integers(len(mforms)))]])
+            r = rng.random()
+            tm_ok = can_tm and equal_len and not ('extreme' in str(bcls) and mode in ('samestart', 'levels'))   # squares overflow
+            if r < 0.6 or not tm_ok:
+                ops.append(['same_start', _window(rng, n_eff, dt)])
+            if r >= 0.4 and tm_ok:
+                ops.append(['time_match', _tm_kwargs(rng, steps, default_steps)])
+    if mode == 'history' and rng.random() < 0.5:       # assignment to the read-only public `values` of a member (ignored)
+        # (one sample longer: a half-done assignment shows in npts; a complete one only makes later time_match calls out of domain)
+        ops.insert(int(rng.integers(1, len(ops) + 1)), ['sig.assign_values', int(rng.integers(nsig)), rng.normal(size=n + 1)])
+    if equal_len and n >= 2 and rng.random() < 0.15:
+        # a window that ends beyond the record: the call is refused (or served completely); nothing half-done
+        T = (n - 1) * dt
+        bad = [{'start': 0, 'end': T + 2.5 * dt}, {'start': T + 3 * dt, 'end': T + 4 * dt}, {'start': 0.0, 'end': 10 * T + 10 * dt},
+               {'end': T + 1.5 * dt}][int(rng.integers(4))]
+        first_len_change = min([j for j, o in enumerate(ops) if o[0] == 'sig.reset_values' and len(o[2]) != n] + [len(ops)])
+        ops.insert(int(rng.integers(0, first_len_change + 1)), ['same_start!', bad])
+    if not long_case and rng.random() < 0.06:          # console output requested (captured): verbose=1
+        for o in ops:
+            if o[0] in ('same_start', 'time_match'):
+                o[1] = dict(o[1], verbose=1)
+    # sections given as SAMPLE INDICES, read on the members before and after the operations
+    index_reads = []
+    for _ in range(3):
+        j = int(rng.integers(5))
+        s0 = [0, 0, n_eff - 1, int(rng.integers(0, n_eff)), int(rng.integers(0, n_eff))][j]
+        e0 = [n_eff, 1, n_eff, s0 + 1, int(rng.integers(s0 + 1, n_eff + 1))][j]
+        index_reads.append([int(rng.integers(nsig)), int(s0), int(e0), ['kw', 'positional', 'np.int64', 'np.bool', 'function'][int(rng.integers(5))]])
     st = rng.random()
     stypes = 'custom' if st < 0.35 else ('acc' if st < 0.7 else [str(rng.choice(['acc', 'custom'])) for _ in range(nsig)])
     names = None if rng.random() < 0.6 else ['rec%d' % i for i in range(nsig)]
@@ -1528,7 +1803,11 @@ def make_cluster_case(rng, k, extra=False):
             'container': form, 'ops': ops, 'lags': [l if l is not None else 'unrelated' for l in lags],
             'steps': steps, 'mode': mode, 'base_class': bcls, 'steps_as_np_int': bool(rng.random() < 0.1),
             'twin': bool(rng.random() < 0.3 and not long_case),
-            'warm': bool(rng.random() < 0.6), 'deepcopy_twin': bool(rng.random() < 0.2 and not long_case)}
+            'warm': bool(rng.random() < 0.6), 'deepcopy_twin': bool(rng.random() < 0.3 and not long_case),
+            'ctor_master': ctor_master, 'ctor_style': ['kw', 'kw', 'positional'][int(rng.integers(3))],
+            'index_reads': index_reads, 'copy_kind': ['deepcopy', 'pickle'][int(rng.integers(2))],
+            'copy_after': int(rng.integers(0, len(ops) + 1)) if rng.random() < 0.5 else 0,
+            'third_run': bool(rng.random() < 0.5)}
     if nsig >= 2 and not long_case and rng.random() < 0.35:
         # members of the (aligned) cluster are then used as the two components of a rotation
         case['rotate_members'] = {'other': int([i for i in range(nsig) if i != master][int(rng.integers(nsig - 1))]),
@@ -1538,12 +1817,41 @@ def make_cluster_case(rng, k, extra=False):
                                                      int(rng.choice([1, 2, 3])), False, 'kw')}
     if not long_case and rng.random() < 0.3:
         # a second cluster of the same shape (negated lags on another base) for the process-wide-state relation
-        b2, _ = gen.record(rng, n + 2 * steps, cls='noise')
+        n2 = n + (int(rng.integers(1, 9)) if rng.random() < 0.5 else 0)        # same shape or a longer one
+        b2, _ = gen.record(rng, n2 + 2 * steps, cls='noise')
         if form in CLUSTER_INT_FORMS:
-            b2 = rng.integers(0, 101, size=n + 2 * steps).astype(float)
-        case['second'] = [b2[steps + (l if isinstance(l, int) else 0): steps + n + (l if isinstance(l, int) else 0)].copy()
+            b2 = rng.integers(0, 101, size=n2 + 2 * steps).astype(float)
+        case['second'] = [b2[steps + (l if isinstance(l, int) else 0): steps + n2 + (l if isinstance(l, int) else 0)].copy()
                           for l in case['lags']]
     return case
+
+
+def _index_obj(k, form):
+    return {'np.int64': np.int64, 'np.int32': np.int32, 'np.intp': np.intp}.get(form, int)(int(k))
+
+
+def _index_reads(eqsig, ctx, case, c):
+    """Sections given as sample indices, read on the members through the public index form (judged by the monitor)."""
+    for i_, s0, e0, style in case.get('index_reads') or []:
+        if i_ >= len(c.signals):
+            continue
+        sig = c.signal_by_index(int(i_))
+        if not (0 <= s0 < e0 <= sig.npts):
+            continue
+        try:
+            if style == 'positional':
+                sig.get_section_average(s0, e0, True)
+            elif style == 'np.int64':
+                sig.get_section_average(start=np.int64(s0), end=np.int64(e0), index=True)
+            elif style == 'np.bool':
+                sig.get_section_average(start=s0, end=e0, index=np.bool_(True))
+            elif style == 'function':
+                eqsig.fns.average.get_section_average(sig, s0, e0, index=True)
+            else:
+                sig.get_section_average(start=s0, end=e0, index=True)
+        except Exception as e:
+            ctx.exception('section-average(index=True)==mean(samples[start:end])',
+                          dict(case, failing={'call': 'get_section_average', 'signal': int(i_), 'start': s0, 'end': e0, 'style': style}), e)
 
 
 def _run_ops(eqsig, ctx, case, c, ops, judged=True):
@@ -1556,6 +1864,34 @@ def _run_ops(eqsig, ctx, case, c, ops, judged=True):
                 c.signal_by_index(int(op[1])).reset_values(np.array(op[2], dtype=float))
             elif name == 'sig.add_constant':
                 c.signal_by_index(int(op[1])).add_constant(op[2])
+            elif name == 'sig.assign_values':      # the public `values` attribute has no effective setter: ignored as a whole
+                s_ = c.signal_by_index(int(op[1]))
+                b_ = (np.array(s_.values, copy=True), s_.npts)
+                try:
+                    s_.values = np.array(op[2], dtype=float)
+                except Exception:
+                    ctx.observe('member.values-assignment-rejected')
+                same_ = unchanged(s_.values, b_[0]) and s_.npts == b_[1]
+                full_ = isinstance(s_.values, np.ndarray) and np.array_equal(s_.values, np.asarray(op[2], dtype=float)) \
+                    and s_.npts == len(op[2])
+                ctx.check(same_ or full_, 'cluster.member-values-assignment(all-or-nothing)',
+                          lambda: dict(case, failing={'op': ['sig.assign_values', int(op[1])]}),
+                          'assigning to the public `values` of member %d was neither ignored nor carried out completely '
+                          '(npts %r -> %r)' % (int(op[1]), b_[1], s_.npts))
+            elif name == 'set_master':
+                c.master_index = _index_obj(op[1], op[2] if len(op) > 2 else 'int')
+            elif name == 'same_start!':
+                before = [(np.array(c.values_by_index(i_), copy=True), c.signal_by_index(i_).npts) for i_ in range(len(c.signals))]
+                mi = c.master_index
+                try:
+                    c.same_start(**dict(op[1]))
+                    ctx.observe('same_start.window-beyond-record-served')
+                except Exception:
+                    okk = mi == c.master_index and all(unchanged(c.values_by_index(i_), b_[0]) and c.signal_by_index(i_).npts == b_[1]
+                                                       for i_, b_ in enumerate(before))
+                    ctx.check(okk, 'same_start.refused-call-leaves-cluster-unchanged',
+                              lambda: dict(case, failing={'op': ['same_start!', op[1]]}),
+                              'same_start(%r) raised (window beyond the record) and left the cluster changed' % (op[1],))
             elif name == 'time_match?':
                 try:
                     c.time_match(**dict(op[1]))
@@ -1566,7 +1902,13 @@ def _run_ops(eqsig, ctx, case, c, ops, judged=True):
                 okw = dict(op[1])
                 if case.get('steps_as_np_int') and 'steps' in okw:
                     okw['steps'] = np.int64(okw['steps'])
-                getattr(c, name)(**okw)
+                if okw.get('verbose'):
+                    import contextlib
+                    import io
+                    with contextlib.redirect_stdout(io.StringIO()):
+                        getattr(c, name)(**okw)
+                else:
+                    getattr(c, name)(**okw)
                 if judged:
                     ctx.ok('%s.returns(no-exception)' % name)
         except Exception as e:
@@ -1581,7 +1923,7 @@ def run_cluster_case(eqsig, ctx, case):
     vals = [np.asarray(v, dtype=float) for v in case['values']]
     data = cluster_container(vals, case.get('container', 'list-of-arrays'))
     snap = container_snapshot(data)
-    kw = {'master_index': int(case['master_index'])}
+    kw = {'master_index': int(case.get('ctor_master', case['master_index']))}
     if case.get('stypes') is not None:
         kw['stypes'] = case['stypes']
     if case.get('names') is not None:
@@ -1589,7 +1931,10 @@ def run_cluster_case(eqsig, ctx, case):
     CURRENT = case
     try:
         try:
-            c = eqsig.Cluster(data, case['dt'], **kw)
+            if case.get('ctor_style') == 'positional':        # Cluster(values, dt, names, master_index, stypes)
+                c = eqsig.Cluster(data, case['dt'], kw.get('names'), kw['master_index'], kw.get('stypes', 'custom'))
+            else:
+                c = eqsig.Cluster(data, case['dt'], **kw)
             twin = eqsig.Cluster(data, case['dt'], **kw) if case.get('twin') else None
         except Exception as e:
             ctx.exception('cluster.constructs', dict(case), e)
@@ -1611,12 +1956,22 @@ def run_cluster_case(eqsig, ctx, case):
             for m_ in members:
                 for attr in ('pga', 'pgv', 'velocity', 'fa_spectrum'):
                     getattr(m_, attr, None)
+        _index_reads(eqsig, ctx, case, c)
         dc = None
-        if case.get('deepcopy_twin'):
-            import copy
-            dc = copy.deepcopy(c)
-        if not _run_ops(eqsig, ctx, case, c, case['ops']):
+        j_copy = int(case.get('copy_after', 0)) if case.get('deepcopy_twin') else 0
+        if j_copy and not _run_ops(eqsig, ctx, case, c, case['ops'][:j_copy]):
             return
+        if case.get('deepcopy_twin'):      # a deep copy / pickle round trip taken cold, warm or in the middle of the history
+            import copy
+            import pickle
+            try:
+                dc = pickle.loads(pickle.dumps(c)) if case.get('copy_kind') == 'pickle' else copy.deepcopy(c)
+            except Exception as e:
+                ctx.exception('cluster.deepcopy-twin-same-result', dict(case, failing={'where': case.get('copy_kind', 'deepcopy')}), e)
+                return
+        if not _run_ops(eqsig, ctx, case, c, case['ops'][j_copy:]):
+            return
+        _index_reads(eqsig, ctx, case, c)
         ctx.check(own(), 'cluster.members-own-their-data', lambda: dict(case, failing={'relation': 'ownership after the operations'}),
                   'a Cluster member shares memory with the caller container / another member after %s' % [o[0] for o in case['ops']])
         if case.get('warm'):
@@ -1634,12 +1989,14 @@ def run_cluster_case(eqsig, ctx, case):
                       'pga/pgv/final velocity memoised on warm Cluster members differ from a fresh computation on their current '
                       'values after %s: %r (signal, memo, fresh)' % ([o[0] for o in case['ops']], bad[:3]))
         if dc is not None:
-            _run_ops(eqsig, ctx, case, dc, [o for o in case['ops'] if o[0] != 'time_match?'], judged=False)
-            same = all(unchanged(dc.values_by_index(i), np.asarray(c.values_by_index(i))) for i in range(len(vals)))
+            _run_ops(eqsig, ctx, case, dc, [o for o in case['ops'][j_copy:] if o[0] != 'time_match?'], judged=False)
+            same = all(unchanged(dc.values_by_index(i), np.asarray(c.values_by_index(i))) for i in range(len(vals))) \
+                and dc.master_index == c.master_index
             ctx.check(same, 'cluster.deepcopy-twin-same-result',
-                      lambda: dict(case, failing={'relation': 'deep copy processed the same way gives the same signals'}),
-                      'a deep copy of the cluster, taken before the operations and processed the same way afterwards, ends '
-                      'with different signals')
+                      lambda: dict(case, failing={'relation': 'copy processed the same way gives the same signals',
+                                                  'copy_kind': case.get('copy_kind', 'deepcopy'), 'copy_after': j_copy}),
+                      'a %s copy of the cluster, taken after the first %d operations and processed the same way afterwards, ends '
+                      'with different signals' % (case.get('copy_kind', 'deepcopy'), j_copy))
         rm = case.get('rotate_members')
         if rm is not None:
             m0, m1 = members[int(case['master_index'])], members[int(rm['other'])]
@@ -1673,6 +2030,22 @@ def run_cluster_case(eqsig, ctx, case):
             ctx.check(okk, 'cluster.first-result-intact-after-second-call',
                       lambda: dict(case, failing={'relation': 'first cluster intact after processing a second one'}),
                       'the aligned signals of the first cluster changed while a second cluster of the same shape was processed')
+            if case.get('third_run'):      # f(A); f(B); f(A): the result depends on the arguments only
+                try:
+                    c3 = eqsig.Cluster(data, case['dt'], **kw)
+                except Exception as e:
+                    ctx.exception('cluster.constructs', dict(case, failing={'which': 'third'}), e)
+                    return
+                if case.get('warm'):
+                    for i_ in range(len(vals)):
+                        for attr in ('pga', 'pgv', 'velocity', 'fa_spectrum'):
+                            getattr(c3.signal_by_index(i_), attr, None)
+                _run_ops(eqsig, ctx, case, c3, [o for o in case['ops'] if o[0] != 'time_match?'], judged=False)
+                ctx.check(all(unchanged(c3.values_by_index(i), held_copy[i]) for i in range(len(vals))),
+                          'cluster.third-run==first-run',
+                          lambda: dict(case, failing={'relation': 'same data processed again after another cluster gives the same signals'}),
+                          'the same container processed the same way a second time (after a cluster of another record was '
+                          'processed in between) ends with different signals')
     finally:
         CURRENT = None
 
